@@ -51,7 +51,7 @@ def c11(prop, tier, replay):
                 args = ["-mode", mode, "-obs", obs, "-n", str(nev), "-seed", str(vf.seed() * 613 + k)]
 
                 def record(path, args=args):
-                    vf.run([bins["rec-board"]] + args + ["-corpus", CORPUS, "-out", path], timeout=900)
+                    vf.run_recorder([bins["rec-board"]] + args + ["-corpus", CORPUS, "-out", path], timeout=900)
                 jobs.append(dict(name="C11-%s-%d" % (mode, i), record=record, args=args))
         # 2. TLC generates the inputs, the replayer probes them, TLC judges the observations
         nsh = vf.NCPU
